@@ -287,7 +287,10 @@ def execOp (σ : DbModel) (db : Database) (tx : Txn) (op : Operation) :
       | none => .error "table not found"
       | some ts =>
         match addOperation ts {} op.uuid none (.insert op.row) with
-        | .ok mu => .ok ({ uuid := op.uuid }, tx, [((op.table, op.uuid), mu)])
+        | .ok mu =>
+          -- the uuid must be free in the database (defect D57: the update could not be committed)
+          if (get? (db.rows op.table) op.uuid).isSome then .error "constraint violation"
+          else .ok ({ uuid := op.uuid }, tx, [((op.table, op.uuid), mu)])
         | .error e => .error (errStr e)
   else if op.op = "select" then
     match σ.table op.table with
